@@ -324,11 +324,15 @@ def value_oracle(pr, top=True):
                     ok = bool(exact == got)
             except Exception:
                 ok = True
-        if not ok and isinstance(got, TypeError) and not has_float_leaf(pr) and tree_has_float(tree):
+        if not ok and isinstance(got, TypeError) and not has_float_leaf(pr) and (
+                tree_has_float(tree) or (may_round(pr) and "'float'" in str(got))):
             # construction-time arithmetic on two plain ints left the exact domain (`-1 / 1` is the
             # FLOAT -1.0 in Python, where the same step on the environment's Fractions stays a
             # Fraction): equal in value, but `>>`, `<<`, `&`, `|`, `^`, `~` reject a float.  Floats
-            # are outside the exact fragment the value claim is about: no verdict.
+            # are outside the exact fragment the value claim is about: no verdict.  The same when the
+            # float arises while the TREE is evaluated (`Quotient(-1, x)` at an int x, after a fold
+            # dropped the zero-valued operand that carried the environment's Fraction type) and an
+            # operator then rejects it: the message names the float operand.
             continue
         if not ok:
             shown = {k: v for k, v in env.items() if k in "xyz"}
